@@ -1,6 +1,6 @@
 """C13 — both drivers move bytes faithfully and always deliver an operation's result."""
 
-PROP = {'areas': [{'area': 'c13', 'corpus': ['corpus/C13/ws.txt', 'corpus/C13/results.txt'], 'quick': 16000, 'thorough': 1600000}],
+PROP = {'areas': [{'area': 'c13', 'corpus': ['corpus/C13/ws.txt', 'corpus/C13/ws_write.txt', 'corpus/C13/results.txt'], 'quick': 16000, 'thorough': 1600000}],
  'coq_target': 'Properties/C13.vo',
  'modelled': 'process_connected of both drivers (client/asynchronous/tokio/mod.rs 112-247, client/synchronous/threaded/mod.rs 154-330): outbound buffer, '
              'cumulative-bytes-written cursor, service appending, flush + write completion only for a fully written batch, Ok(0) / would-block / interrupted '
